@@ -164,8 +164,10 @@ def _snapshot(prob):
         for key in ("pipeline.charge_collection.pat.arguments.gain", "pipeline.charge_collection.pat.arguments.bias",
                     "pipeline.charge_collection.pat.arguments.offset"):
             vals.append(float(proc.get(key)))
-        vals.append(float(np.sum(np.nan_to_num(np.array(proc.detector.pixel.array, dtype=float))))
-                    if proc.detector.pixel._array is not None else None)
+        try:       # the frame left in the processor's own detector, if any (reading an empty bucket raises)
+            vals.append(float(np.sum(np.nan_to_num(np.array(proc.detector.pixel.array, dtype=float)))))
+        except Exception:  # noqa: BLE001
+            vals.append(None)
     out["processors"] = copy.deepcopy(vals)
     return out
 
